@@ -72,6 +72,8 @@ class RefDoc:
             a += ' filter="%s"' % ' '.join(fs)
         if rng.below(6) == 0:
             a += ' opacity="0.5"'
+        if not in_clip and rng.below(10) == 0:
+            a += ' style="%s"' % rng.choice(['mix-blend-mode:screen', 'isolation:isolate', 'mix-blend-mode:multiply;isolation:isolate'])
         if rng.below(6) == 0:
             a += ' transform="translate(%d %d)"' % (rng.below(20), rng.below(20))
         return a
@@ -267,7 +269,7 @@ def _grad(i, color):
 
 
 def crafted_docs():
-    out = []
+    out = units_docs() + marker_docs() + [specular_doc(v) for v in SPECULAR_VALUES]
     # a path whose fill AND stroke are different patterns; what the stroke pattern's content uses is used nowhere else
     for res, attr, definition in [
         ('only-g', 'fill="url(#only-g)"', _grad('only-g', 'red')),
@@ -298,3 +300,94 @@ def crafted_docs():
         for users in ((line, rect), (line, rect, rect.replace('y="50"', 'y="5" x="40"')), (rect, line, rect.replace('width="60"', 'width="30"'))):
             out.append('<svg %s width="100" height="100"><defs>%s</defs>%s</svg>' % (NS, definition, ''.join(u % attr for u in users)))
     return out
+
+
+GROUP_ATTRS = [('opacity', 'opacity="0.5"'), ('blend', 'style="mix-blend-mode:multiply"'), ('isolate', 'style="isolation:isolate"'),
+               ('clip', 'clip-path="url(#gc)"'), ('mask', 'mask="url(#gm)"'), ('filter', 'filter="url(#gf)"'),
+               ('transform', 'transform="translate(3 4)"')]
+
+
+def group_attr_docs():
+    """a group with every pair of group-forming attributes (blend + isolate share one `style`)"""
+    defs = ('<clipPath id="gc"><rect width="60" height="60"/></clipPath>'
+            '<mask id="gm" maskUnits="userSpaceOnUse" x="0" y="0" width="80" height="80"><rect width="70" height="70" fill="white"/></mask>'
+            '<filter id="gf" filterUnits="userSpaceOnUse" x="0" y="0" width="90" height="90"><feOffset dx="2"/></filter>')
+    out = []
+    for i in range(len(GROUP_ATTRS)):
+        for j in range(i + 1, len(GROUP_ATTRS)):
+            a, b = GROUP_ATTRS[i][1], GROUP_ATTRS[j][1]
+            if a.startswith('style=') and b.startswith('style='):
+                a, b = 'style="mix-blend-mode:multiply;isolation:isolate"', ''
+            out.append('<svg %s width="100" height="100"><defs>%s</defs><rect width="100" height="100" fill="yellow"/>'
+                       '<g id="gg" %s %s><rect x="10" y="10" width="50" height="50" fill="blue"/><circle cx="60" cy="60" r="20" fill="red"/></g></svg>'
+                       % (NS, defs, a, b))
+    return out
+
+
+def size_docs():
+    """documents whose size is not integral (physical units, tiny sizes); (document, list of option overrides)"""
+    body = '<rect width="50%" height="50%" fill="green"/><circle cx="3" cy="3" r="2"/>'
+    docs = []
+    for wh in [('210mm', '297.3mm'), ('0.4', '0.3'), ('33.3333pt', '7.77in'), ('100.5', '0.62'), ('12.345678', '1234.5678'),
+               ('2.54cm', '1pc')]:
+        docs.append(('<svg %s width="%s" height="%s" viewBox="0 0 20 10">%s</svg>' % (NS, wh[0], wh[1], body),
+                     [dict(cp=0, tp=0), dict(cp=2, tp=8), dict(cp=1, tp=3), dict(cp=3, tp=12)]))
+    return docs
+
+
+def units_docs():
+    """every units combination of filters, masks, clip paths and patterns, shared by 2-3 users with different boxes"""
+    out = []
+    users2 = '<rect x="5" y="5" width="40" height="30" fill="green" %(a)s/><rect x="50" y="40" width="30" height="50" fill="blue" %(a)s/>'
+    users3 = users2 + '<circle cx="30" cy="70" r="15" fill="red" %(a)s/>'
+    U = ['userSpaceOnUse', 'objectBoundingBox']
+    for users in (users2, users3):
+        for u1 in U:
+            for u2 in U:
+                region = 'x="0" y="0" width="100" height="100"' if u1 == U[0] else 'x="0" y="0" width="1" height="1"'
+                off = '3' if u2 == U[0] else '0.1'
+                out.append('<svg %s width="100" height="100"><filter id="fu" filterUnits="%s" primitiveUnits="%s" %s><feOffset dx="%s" dy="%s"/>'
+                           '<feFlood flood-color="red" flood-opacity="0.3"/><feMerge><feMergeNode in="result1"/><feMergeNode/></feMerge></filter>%s</svg>'
+                           % (NS, u1, u2, region, off, off, users % dict(a='filter="url(#fu)"')))
+                cont = '<rect x="2" y="2" width="30" height="30" fill="white"/>' if u2 == U[0] else '<rect x="0.1" y="0.1" width="0.7" height="0.7" fill="white"/>'
+                out.append('<svg %s width="100" height="100"><mask id="mu" maskUnits="%s" maskContentUnits="%s" %s>%s</mask>%s</svg>'
+                           % (NS, u1, u2, region, cont, users % dict(a='mask="url(#mu)"')))
+                wh = 'width="10" height="10"' if u1 == U[0] else 'width="0.25" height="0.25"'
+                pc = '<rect width="5" height="5" fill="black"/>' if u2 == U[0] else '<rect width="0.1" height="0.1" fill="black"/>'
+                out.append('<svg %s width="100" height="100"><pattern id="pu" patternUnits="%s" patternContentUnits="%s" %s>%s</pattern>%s</svg>'
+                           % (NS, u1, u2, wh, pc, (users % dict(a='stroke="url(#pu)" stroke-width="4"')).replace('fill="green"', 'fill="url(#pu)"')))
+            cc = '<circle cx="20" cy="20" r="18"/>' if u1 == U[0] else '<circle cx="0.5" cy="0.5" r="0.4"/>'
+            out.append('<svg %s width="100" height="100"><clipPath id="cu" clipPathUnits="%s">%s</clipPath>%s</svg>'
+                       % (NS, u1, cc, users % dict(a='clip-path="url(#cu)"')))
+    return out
+
+
+def marker_docs():
+    """marker content that needs a viewport clip group (nested svg with a size, use of a sized symbol) on paths with several
+    marker positions: marker instances must not carry the ids of the marker children"""
+    path = '<path id="path1" d="M 20 20 L 100 100 L 180 20" fill="none" stroke="black" %s/>'
+    allpos = 'marker-start="url(#marker1)" marker-mid="url(#marker1)" marker-end="url(#marker1)"'
+    two = 'marker-start="url(#marker1)" marker-end="url(#marker1)"'
+    bodies = [
+        '<svg id="svg2" x="-5" y="-5" width="10" height="10"><circle id="circle1" cx="5" cy="5" r="30" fill="green"/></svg>',
+        '<use id="use1" xlink:href="#sym1" x="-5" y="-5" width="10" height="10"/>',
+        '<g id="g1"><circle id="circle1" r="5" fill="green"/><image id="img1" width="4" height="4" xlink:href="data:image/png;base64,'
+        'iVBORw0KGgoAAAANSUhEUgAAAAQAAAAECAIAAAAmkwkpAAAAFElEQVR4nGP8z8DAwMDAxMDAwMAAAA0GAQOGZq0kAAAAAElFTkSuQmCC"/></g>',
+        '<svg id="svg3" width="10" height="10" viewBox="0 0 20 20" overflow="visible"><rect id="r3" width="8" height="8"/></svg>',
+    ]
+    out = []
+    for b in bodies:
+        for pos in (allpos, two):
+            out.append('<svg %s viewBox="0 0 200 200" width="200" height="200"><symbol id="sym1" viewBox="0 0 10 10"><circle id="circle2" cx="5" cy="5" r="30" fill="green"/></symbol>'
+                       '<marker id="marker1" overflow="visible">%s</marker>%s</svg>' % (NS, b, path % pos))
+    return out
+
+
+SPECULAR_VALUES = [None, '0.5', '0', '1', '128', '128.5', '256', '-3', '0.999', '1.001', '64', '127.99', '1e-3', '0.25']
+
+
+def specular_doc(v):
+    a = '' if v is None else ' specularExponent="%s"' % v
+    return ('<svg %s width="100" height="100"><filter id="f" filterUnits="userSpaceOnUse" x="0" y="0" width="100" height="100">'
+            '<feSpecularLighting%s><feDistantLight azimuth="10" elevation="20"/></feSpecularLighting></filter>'
+            '<rect width="50" height="50" filter="url(#f)"/></svg>' % (NS, a))
